@@ -79,6 +79,14 @@ def gen_cases(rng, tier):
             if rng.random() < 0.5:
                 h += ['d%d' % codes[-1], 't2', 'u%d' % codes[-1]]
         cases.append({'id': 'c01-ovf-%d' % i, 'cfg': cfg, 'hist': h + ['t%d' % DRAIN, 'q', 't50'], 'sub': 'ksim', 'tags': {'mode': kind}})
+    # an action that reaches rpt-any through a deferred sub-action of itself (known finding rpt-any-self-trigger)
+    for i in range(6 if tier == 'quick' else 60):
+        inner = rng.choice(['(tap-dance %d (rpt-any))' % rng.choice([1, 2, 50]), '(tap-dance %d (rpt-any x))' % rng.choice([1, 20]),
+                            '(tap-hold 0 %d rpt-any y)' % rng.choice([5, 50])])
+        act = '(multi %s %s)' % (inner, rng.choice(['x', '(release-key x)', 'lsft']))
+        cfg = '(defsrc a s d)\n(deflayer l0 %s y (one-shot 50 ralt))' % act
+        h = rng.choice([['d30', 't3', 'u30'], ['d32', 't1', 'd30', 't20', 'u30', 't5', 'u32'], ['d30', 't1', 'u30', 't30', 'd31', 't5', 'u31']])
+        cases.append({'id': 'c01-rptself-%d' % i, 'cfg': cfg, 'hist': h + ['t%d' % DRAIN, 'q', 't50'], 'sub': 'ksim', 'tags': {'mode': 'rpt-any-self-trigger'}})
     return cases
 
 
